@@ -1,18 +1,23 @@
 //! verification harness module included into `statime-algo/src/lib.rs` (guarded hook): C43 (and the
 //! controller-level part of C42).  Grandchild of the crate root, so it sees `KalmanController::state`,
-//! `KalmanControllerState::{filter, clocks}`.
+//! `KalmanControllerState::{filter, clocks, filter_config, root_delay}`.
 //!
-//! Stream c43_ctrl: a real `KalmanController<StdKalmanStorage<Mock>, Mock>` with recording mock clocks,
-//! untracked links, measurements, time ticks, clock additions/removals, queries.
-//!   * before every `link.measurement` the harness computes, with the REAL filter code on a clone, the
-//!     estimate `steer_clocks` will read (clone → progress_time(now) → measurement); after the call it
-//!     emits, per steered clock, one line `steer sys= off= unc= fr= cur= max=` (values read back) whose
-//!     observation is the action the controller performed on the mock clock plus the controller's own
-//!     estimate afterwards.  The Lean kernel `PtpCtrl.steerOne` must print the same bits.
-//!   * `query` lines carry the filter's frequency pair (private access); the observation is what the
-//!     public `KalmanController::clock_frequency` returned.
-//!   Oracle (implementation alone): frequency_query, steer_within_max, estimate_tracks_steer (rel 1e-9),
-//!   failed_ops_no_change at controller level (table unchanged after a failed op).
+//! Stream c43_ctrl: op lines interpreted against a real `KalmanController<StdKalmanStorage<Mock>, Mock>`
+//! with recording mock clocks:
+//!   new t= max= w= ow= lw= dw= mw= ma=      controller with the system clock (clock 0) and a filter config
+//!   tick dt=<f64>                           the mocks' `now()` advances by `Duration::from_f64_seconds(dt)`
+//!   addclock max= cur= w= | addext | rmclock c= | rmext c=       (clocks are named by allocation order)
+//!   link a= b= dec=<f64|->                  tracked (decay) / untracked link; handles named by creation order
+//!   drop l= | extupd l= rd=<f64> leap=<-|0|59|61> usable=<0|1>
+//!   meas l= fwd= d=<f64> u=<f64>            `KalmanLink::measurement` (recv − send = d, uncertainty u)
+//! Observation after every op: result kind, everything the controller did to every mock clock during the
+//! call (set_frequency / step_clock, leap_update, synchronization_update, error_estimate_update) and the
+//! table (root delay, per clock offset and frequency estimate with uncertainties and the mock's frequency,
+//! per link handle the active flag).  The Lean model (`PtpFilter.Ctrl`) computes ALL of it itself from the
+//! op lines — link noise estimation, selection, consensus, Kalman update, steering — bit for bit.
+//! Oracle (implementation alone): frequency_query, steer_within_max, estimate_tracks_steer (rel 1e-9),
+//! others_unchanged / failed_ops_no_change at controller level, internal_untracked_active,
+//! unusable_never_activates.
 #![allow(clippy::all, clippy::pedantic)]
 
 #[path = "../common/mod.rs"]
@@ -25,7 +30,7 @@ use std::{format, vec};
 
 use super::super::*;
 use crate::filter::LinkFilterConfig;
-use common::{f64hex, Rng, Run};
+use common::{f64hex, f64unhex, kv, Rng, Run};
 use std::sync::{Arc, Mutex};
 
 #[derive(Debug, Clone)]
@@ -34,12 +39,21 @@ enum Act {
     Step(Duration),
 }
 
+#[derive(Debug, Default)]
+struct CallLog {
+    act: Option<Act>,
+    extra_acts: usize,
+    leap: Option<LeapStatus>,
+    sync: Option<bool>,
+    ee: Option<(Duration, Duration)>,
+}
+
 #[derive(Debug)]
 struct MockState {
     now: Timestamp<TAI>,
     freq: f64,
     max: f64,
-    log: Vec<Act>,
+    log: CallLog,
 }
 
 #[derive(Clone, Debug)]
@@ -47,7 +61,7 @@ struct Mock(Arc<Mutex<MockState>>);
 
 impl Mock {
     fn new(now: Timestamp<TAI>, max: f64, freq: f64) -> Mock {
-        Mock(Arc::new(Mutex::new(MockState { now, freq, max, log: vec![] })))
+        Mock(Arc::new(Mutex::new(MockState { now, freq, max, log: CallLog::default() })))
     }
 }
 
@@ -58,7 +72,10 @@ impl Clock for Mock {
     fn set_frequency(&self, freq: f64) -> Result<Timestamp<TAI>, ClockError> {
         let mut s = self.0.lock().unwrap();
         s.freq = freq;
-        s.log.push(Act::SetFreq(freq));
+        if s.log.act.is_some() {
+            s.log.extra_acts += 1;
+        }
+        s.log.act = Some(Act::SetFreq(freq));
         Ok(s.now)
     }
     fn get_frequency(&self) -> Result<f64, ClockError> {
@@ -69,21 +86,29 @@ impl Clock for Mock {
     }
     fn step_clock(&self, offset: Duration) -> Result<Timestamp<TAI>, ClockError> {
         let mut s = self.0.lock().unwrap();
-        s.log.push(Act::Step(offset));
+        if s.log.act.is_some() {
+            s.log.extra_acts += 1;
+        }
+        s.log.act = Some(Act::Step(offset));
+        s.now = s.now + offset;
         Ok(s.now)
     }
-    fn error_estimate_update(&self, _e: Duration, _m: Duration) -> Result<(), ClockError> {
+    fn error_estimate_update(&self, e: Duration, m: Duration) -> Result<(), ClockError> {
+        self.0.lock().unwrap().log.ee = Some((e, m));
         Ok(())
     }
-    fn leap_update(&self, _l: LeapStatus) -> Result<(), ClockError> {
+    fn leap_update(&self, l: LeapStatus) -> Result<(), ClockError> {
+        self.0.lock().unwrap().log.leap = Some(l);
         Ok(())
     }
-    fn synchronization_update(&self, _s: bool) -> Result<(), ClockError> {
+    fn synchronization_update(&self, s: bool) -> Result<(), ClockError> {
+        self.0.lock().unwrap().log.sync = Some(s);
         Ok(())
     }
 }
 
 type Ctrl = KalmanController<StdKalmanStorage<Mock>, Mock>;
+type Link = KalmanLink<Arc<Ctrl>, StdKalmanStorage<Mock>, Mock>;
 
 /// raw i128 of a Duration (see estimator_ptpalgo.rs)
 fn dur_raw(d: Duration) -> i128 {
@@ -108,20 +133,43 @@ fn dur_raw(d: Duration) -> i128 {
     }
 }
 
-fn cfg() -> LinkFilterConfig {
-    LinkFilterConfig {
-        select_offset_uncertainty_window: 3.0,
-        select_link_uncertainty_window: 3.0,
-        select_delay_uncertainty_window: 1.0,
-        select_max_window_size: 1.0,
-        minimum_agreeing_sources: 1,
-    }
+fn parse_ts(s: &str) -> Option<Timestamp<TAI>> {
+    let (a, b) = s.split_once(':')?;
+    Some(Timestamp::from_seconds_nanos_since_unix_epoch(a.parse().ok()?, b.parse().ok()?))
 }
 
 fn uvs(r: &Result<UncertainValue, AlgoError>) -> String {
     match r {
         Ok(v) => format!("{},{}", f64hex(v.value), f64hex(v.uncertainty)),
         Err(_) => "-".to_string(),
+    }
+}
+
+fn err_name(e: &AlgoError) -> String {
+    let k = match e {
+        AlgoError::UnknownClock(_) => "UnknownClock",
+        AlgoError::ClockAlreadyExists(_) => "ClockAlreadyExists",
+        AlgoError::UnknownLink(_) => "UnknownLink",
+        AlgoError::LinkAlreadyExists(_) => "LinkAlreadyExists",
+        AlgoError::LinkNotExternal(_) => "LinkNotExternal",
+        AlgoError::BothClocksExternal(..) => "BothClocksExternal",
+        AlgoError::ClocksEqual(_) => "ClocksEqual",
+        AlgoError::NonMonotonicTimeProgression { .. } => "NonMonotonic",
+        AlgoError::CannotRemoveSystemClock(_) => "CannotRemoveSystemClock",
+        AlgoError::MatrixError(_) => "MatrixError",
+        AlgoError::ClockError(_) => "ClockError",
+        AlgoError::NotEnoughMeasurements(_) => "NotEnoughMeasurements",
+        AlgoError::ClockInUse(..) => "ClockInUse",
+    };
+    format!("err:{}", k)
+}
+
+fn leap_str(l: Option<LeapStatus>) -> &'static str {
+    match l {
+        None => "-",
+        Some(LeapStatus::None) => "0",
+        Some(LeapStatus::Leap59) => "59",
+        Some(LeapStatus::Leap61) => "61",
     }
 }
 
@@ -132,246 +180,637 @@ fn rel_close(a: f64, b: f64) -> bool {
     (a - b).abs() <= 1e-9 * a.abs().max(b.abs()).max(1e-300)
 }
 
+struct Handle {
+    uid: usize,
+    link: Link,
+    a: usize,
+    b: usize,
+    tracked: bool,
+    external: bool,
+    usable: bool,
+}
+
 struct World {
     ctrl: Arc<Ctrl>,
-    clocks: Vec<(ClockId, Mock)>,
-    links: Vec<(usize, usize, KalmanLink<Arc<Ctrl>, StdKalmanStorage<Mock>, Mock>)>,
-    ext_links: Vec<KalmanLink<Arc<Ctrl>, StdKalmanStorage<Mock>, Mock>>,
-    now: (u64, u32),
+    /// every allocated clock id in allocation order, with its mock (None = external clock)
+    ids: Vec<(ClockId, Option<Mock>)>,
+    links: Vec<Handle>,
+    n_links: usize,
 }
 
-fn ts(t: (u64, u32)) -> Timestamp<TAI> {
-    Timestamp::from_seconds_nanos_since_unix_epoch(t.0, t.1)
-}
-
-fn table(w: &World) -> Vec<String> {
-    w.clocks
-        .iter()
-        .map(|(id, _)| format!("{};{}", uvs(&w.ctrl.clock_offset(*id)), uvs(&w.ctrl.state.with_ref(|s| s.filter.clock_frequency(*id)))))
-        .collect()
-}
-
-fn exec_case(rng: &mut Rng, idx: u64, run: &mut Run) {
-    let now0 = (rng.below(2_000_000_000), rng.below(1_000_000_000) as u32);
-    let max0 = match rng.below(6) {
-        0 => 1e-6,
-        1 => 0.0,
-        _ => rng.f64_unit() * 1e-3 + 1e-6,
-    };
-    let sys = Mock::new(ts(now0), max0, 0.0);
-    let (ctrl, id0) = Ctrl::new(sys.clone(), 1e-8, cfg()).expect("new");
-    let mut w = World { ctrl: Arc::new(ctrl), clocks: vec![(id0, sys)], links: vec![], ext_links: vec![], now: now0 };
-    let mut key = String::new();
-    let mut steers = 0;
-    // most scenarios get an external reference (untracked, usable link to the system clock), so that the
-    // uncertainty shrinks and the frequency-steering arm is reached
-    if idx != 0 && rng.chance(3, 4) {
-        if let Ok(ext) = w.ctrl.add_external_clock() {
-            if let Ok(l) = Ctrl::create_untracked_link(w.ctrl.clone(), ext, id0) {
-                let _ = l.external_data_update(Duration::ZERO, Some(LeapStatus::None), true);
-                w.ext_links.push(l);
+impl World {
+    fn sys_now(&self) -> Timestamp<TAI> {
+        self.ids[0].1.as_ref().unwrap().0.lock().unwrap().now
+    }
+    fn seq(&self, id: ClockId) -> usize {
+        self.ids.iter().position(|(i, _)| *i == id).unwrap_or(999)
+    }
+    /// (seq, offset, frequency (filter's own), mock freq) for the controller's clocks, in its order
+    fn clock_rows(&self) -> Vec<(usize, Result<UncertainValue, AlgoError>, Result<UncertainValue, AlgoError>, f64, f64)> {
+        let cids: Vec<ClockId> = self.ctrl.state.with_ref(|s| s.clocks.iter().map(|c| c.id).collect());
+        cids.iter()
+            .map(|id| {
+                let seq = self.seq(*id);
+                let (fr, mx) = match self.ids.get(seq).and_then(|x| x.1.as_ref()) {
+                    Some(m) => {
+                        let s = m.0.lock().unwrap();
+                        (s.freq, s.max)
+                    }
+                    None => (f64::NAN, f64::NAN),
+                };
+                (seq, self.ctrl.clock_offset(*id), self.ctrl.state.with_ref(|s| s.filter.clock_frequency(*id)), fr, mx)
+            })
+            .collect()
+    }
+    fn table(&self) -> String {
+        let rd = self.ctrl.state.with_ref(|s| dur_raw(s.root_delay));
+        let cs: Vec<String> = self
+            .clock_rows()
+            .iter()
+            .map(|(seq, o, f, cur, _)| format!("{}:{};{};{}", seq, uvs(o), uvs(f), f64hex(*cur)))
+            .collect();
+        let ls: Vec<String> = self
+            .links
+            .iter()
+            .map(|h| match h.link.active() {
+                Ok(b) => format!("{}:{}", h.uid, if b { 1 } else { 0 }),
+                Err(_) => format!("{}:?", h.uid),
+            })
+            .collect();
+        format!("rd={} c={} l={}", rd, cs.join("|"), ls.join("|"))
+    }
+    fn est_table(&self) -> Vec<(usize, String)> {
+        self.clock_rows().iter().map(|(seq, o, f, _, _)| (*seq, format!("{};{}", uvs(o), uvs(f)))).collect()
+    }
+    fn clear_logs(&self) {
+        for (_, m) in &self.ids {
+            if let Some(m) = m {
+                m.0.lock().unwrap().log = CallLog::default();
             }
         }
     }
-    // corpus case 0: the design-time witness of F-C43 — one extra clock, one measurement, then the query
-    let n_ops = if idx == 0 { 6 } else { rng.usize(4, 40) };
-    for step in 0..n_ops {
-        let r = if idx == 0 { [0u64, 30, 50, 50, 90, 90][step] } else if step < 2 { rng.below(40) } else { rng.below(100) };
-        match r {
-            0..=19 => {
-                // add a clock
-                let max = match rng.below(8) {
-                    0 => 0.0,
-                    1 => 1e-9,
-                    _ => rng.f64_unit() * 1e-3 + 1e-7,
-                };
-                let cur = if rng.chance(1, 3) { (rng.f64_unit() * 2.0 - 1.0) * max } else { 0.0 };
-                let m = Mock::new(ts(w.now), max, cur);
-                let before = table(&w);
-                match w.ctrl.add_clock(m.clone(), 1e-8 * (1.0 + rng.f64_unit())) {
-                    Ok(id) => {
-                        w.clocks.push((id, m));
-                        let after = table(&w);
-                        if before[..] != after[..before.len()] {
-                            run.oracle_fail("others_unchanged", "op=ctrl_add_clock", &format!("add_clock changed other estimates: {:?} -> {:?}", before, after));
-                        }
-                        run.hit("add_clock-ok");
-                    }
-                    Err(_) => run.hit("add_clock-err"),
+}
+
+fn pf(ws: &[&str], k: &str) -> Option<f64> {
+    kv(ws, k).and_then(f64unhex)
+}
+fn pu(ws: &[&str], k: &str) -> Option<usize> {
+    kv(ws, k).and_then(|s| s.parse().ok())
+}
+
+fn exec_case(ops: &[String], run: &mut Run) {
+    let mut world: Option<World> = None;
+    // once an estimated VALUE is NaN (NaN uncertainties = negative variances are deterministic) the comparison stops: what happens next depends on the signs of NaNs
+    // (`total_cmp` in the consensus sort), which Rust leaves unspecified
+    let mut nan_dead = false;
+    let mut key = String::new();
+    let mut steers = 0usize;
+    for op in ops {
+        run.begin_op(op);
+        let ws: Vec<&str> = op.split_whitespace().collect();
+        if ws.is_empty() {
+            run.end_op("bad-op");
+            continue;
+        }
+        if nan_dead && ws[0] != "new" {
+            run.end_op("nan-dead");
+            continue;
+        }
+        if ws[0] == "new" {
+            nan_dead = false;
+            let (Some(t), Some(max), Some(w), Some(ow), Some(lw), Some(dw), Some(mw), Some(ma)) = (
+                kv(&ws, "t").and_then(parse_ts),
+                pf(&ws, "max"),
+                pf(&ws, "w"),
+                pf(&ws, "ow"),
+                pf(&ws, "lw"),
+                pf(&ws, "dw"),
+                pf(&ws, "mw"),
+                pu(&ws, "ma"),
+            ) else {
+                run.end_op("bad-op");
+                continue;
+            };
+            let sys = Mock::new(t, max, 0.0);
+            let cfg = LinkFilterConfig {
+                select_offset_uncertainty_window: ow,
+                select_link_uncertainty_window: lw,
+                select_delay_uncertainty_window: dw,
+                select_max_window_size: mw,
+                minimum_agreeing_sources: ma,
+            };
+            match Ctrl::new(sys.clone(), w, cfg) {
+                Ok((c, id0)) => {
+                    let wd = World { ctrl: Arc::new(c), ids: vec![(id0, Some(sys))], links: vec![], n_links: 0 };
+                    let obs = format!("ok [] {}", wd.table());
+                    world = Some(wd);
+                    run.end_op(&obs);
+                }
+                Err(e) => {
+                    world = None;
+                    run.end_op(&format!("{} [] none", err_name(&e)));
                 }
             }
-            20..=39 => {
-                if w.clocks.len() >= 2 {
-                    let a = rng.usize(0, w.clocks.len() - 1);
-                    let mut b = rng.usize(0, w.clocks.len() - 1);
-                    if a == b {
-                        b = (a + 1) % w.clocks.len();
-                    }
-                    match Ctrl::create_untracked_link(w.ctrl.clone(), w.clocks[a].0, w.clocks[b].0) {
-                        Ok(l) => {
-                            w.links.push((a, b, l));
-                            run.hit("link-ok")
+            continue;
+        }
+        let Some(w) = world.as_mut() else {
+            run.end_op("no-ctrl");
+            continue;
+        };
+        w.clear_logs();
+        let before = w.est_table();
+        let active_before: Vec<(usize, bool)> = w.links.iter().map(|h| (h.uid, h.link.active().unwrap_or(false))).collect();
+        let mut log_str = String::new();
+        let res: String = match ws[0] {
+            "tick" => match pf(&ws, "dt") {
+                Some(dt) => {
+                    for (_, m) in &w.ids {
+                        if let Some(m) = m {
+                            let mut s = m.0.lock().unwrap();
+                            s.now = s.now + Duration::from_f64_seconds(dt);
                         }
-                        Err(_) => run.hit("link-err"),
                     }
+                    "ok".into()
                 }
-            }
-            40..=79 => {
-                if w.links.is_empty() && w.ext_links.is_empty() {
-                    continue;
-                }
-                let use_ext = !w.ext_links.is_empty() && (w.links.is_empty() || rng.chance(1, 2));
-                // advance time a little (or not), then measure
-                if rng.chance(3, 4) {
-                    w.now.0 += rng.below(4);
-                    w.now.1 = rng.below(1_000_000_000) as u32;
-                    for (_, m) in &w.clocks {
-                        m.0.lock().unwrap().now = ts(w.now);
-                    }
-                }
-                let li = if use_ext { 0 } else { rng.usize(0, w.links.len() - 1) };
-                let fwd = rng.chance(1, 2);
-                let off = match rng.below(6) {
-                    0 => (rng.f64_unit() * 2.0 - 1.0) * 20.0,
-                    1 => (rng.f64_unit() * 2.0 - 1.0) * 1e-6,
-                    2 => 1e-3 + rng.f64_unit() * 1e-6,
-                    3 => -1e-3 - rng.f64_unit() * 1e-6,
-                    _ => (rng.f64_unit() * 2.0 - 1.0) * 1e-2,
-                };
-                let send = ts(w.now);
-                let recv = send + Duration::from_f64_seconds(off);
-                let unc = Duration::from_f64_seconds(rng.f64_unit() * 1e-4 + 1e-9);
-                let m = Measurement { send_timestamp: send, recv_timestamp: recv, uncertainty: unc };
-                let dir = if fwd { Direction::Forward } else { Direction::Reverse };
-                // what steer_clocks will read: the REAL filter code on a clone
-                let the_link = if use_ext { &w.ext_links[0] } else { &w.links[li].2 };
-                let link_id = the_link.link_id;
-                let pre = w.ctrl.state.with_ref(|s| {
-                    s.filter.clone().progress_time(ts(w.now)).and_then(|f| {
-                        f.measurement(
-                            &s.filter_config,
-                            DirectedLinkId::new(link_id, dir),
-                            UncertainValue { value: (recv - send).as_seconds(), uncertainty: unc.as_seconds() },
-                        )
-                    })
-                });
-                let cur: Vec<(f64, f64)> = w.clocks.iter().map(|(_, m)| { let s = m.0.lock().unwrap(); (s.freq, s.max) }).collect();
-                for (_, m) in &w.clocks {
-                    m.0.lock().unwrap().log.clear();
-                }
-                let res = the_link.measurement(m, dir);
-                let Ok(pre) = pre else {
-                    run.hit("meas-pre-err");
-                    continue;
-                };
-                if res.is_err() {
-                    run.hit("meas-err");
-                    continue;
-                }
-                run.hit("meas-ok");
-                for (k, (id, mock)) in w.clocks.iter().enumerate() {
-                    let o = pre.clock_offset(*id).unwrap();
-                    let fr = pre.clock_frequency(*id).unwrap();
-                    let log = mock.0.lock().unwrap().log.clone();
-                    let post_o = w.ctrl.clock_offset(*id).unwrap();
-                    let post_f = w.ctrl.state.with_ref(|s| s.filter.clock_frequency(*id)).unwrap();
-                    let op = format!(
-                        "steer sys={} off={} unc={} fr={} cur={} max={}",
-                        if k == 0 { 1 } else { 0 },
-                        f64hex(o.value),
-                        f64hex(o.uncertainty),
-                        f64hex(fr.value),
-                        f64hex(cur[k].0),
-                        f64hex(cur[k].1)
-                    );
-                    let obs = match log.as_slice() {
-                        [Act::SetFreq(f)] => {
-                            run.hit(if f.abs() == cur[k].1 { "steer-freq-clamped" } else { "steer-freq" });
-                            key.push('f');
-                            // oracle: within max; estimate changed by the applied change
-                            if !(f.abs() <= cur[k].1) && !f.is_nan() {
-                                run.oracle_fail("steer_within_max", "", &format!("set_frequency({}) with max_frequency {}", f, cur[k].1));
+                None => "bad-op".into(),
+            },
+            "addclock" => match (pf(&ws, "max"), pf(&ws, "cur"), pf(&ws, "w")) {
+                (Some(max), Some(cur), Some(wd)) => {
+                    let m = Mock::new(w.sys_now(), max, cur);
+                    match w.ctrl.add_clock(m.clone(), wd) {
+                        Ok(id) => {
+                            w.ids.push((id, Some(m)));
+                            let after = w.est_table();
+                            if before[..] != after[..before.len()] {
+                                run.oracle_fail("others_unchanged", "op=ctrl_add_clock", &format!("add_clock changed other estimates: {:?} -> {:?}", before, after));
                             }
-                            let applied = f - cur[k].0;
-                            if !rel_close(post_f.value - fr.value, applied) && !rel_close(post_f.value, fr.value + applied) {
-                                run.oracle_fail("estimate_tracks_steer", "kind=freq", &format!("frequency estimate {} -> {} but applied change {}", fr.value, post_f.value, applied));
-                            }
-                            format!("setfreq {} est={}", f64hex(*f), f64hex(post_f.value))
+                            run.hit("add_clock-ok");
+                            format!("ok:{}", w.ids.len() - 1)
                         }
-                        [Act::Step(d)] => {
-                            run.hit("steer-step");
-                            key.push('s');
-                            let applied = d.as_seconds();
-                            if !rel_close(post_o.value, o.value + applied) && !((post_o.value - (o.value + applied)).abs() <= 1e-18) {
-                                run.oracle_fail("estimate_tracks_steer", &format!("kind=step sys={} sat={}", if k == 0 { 1 } else { 0 }, if o.value.abs() >= 9223372036854775808.0 { 1 } else { 0 }), &format!("offset estimate {} -> {} but applied step {}", o.value, post_o.value, applied));
-                            }
-                            format!("step {} est={}", dur_raw(*d), f64hex(post_o.value))
-                        }
-                        other => format!("unexpected {:?}", other),
-                    };
-                    steers += 1;
-                    run.op(&op, &obs);
-                }
-            }
-            80..=89 => {
-                // removal of a non-system clock (fails while links use it) or of the system clock (must fail)
-                let k = rng.usize(0, w.clocks.len() - 1);
-                let before = table(&w);
-                let r = w.ctrl.remove_clock(w.clocks[k].0);
-                match r {
-                    Ok(()) => {
-                        w.clocks.remove(k);
-                        let mut b2 = before.clone();
-                        b2.remove(k);
-                        if b2 != table(&w) {
-                            run.oracle_fail("others_unchanged", "op=ctrl_remove_clock", &format!("remove_clock changed other estimates: {:?} -> {:?}", before, table(&w)));
-                        }
-                        run.hit("remove_clock-ok");
-                    }
-                    Err(_) => {
-                        if before != table(&w) {
-                            run.oracle_fail("failed_ops_no_change", "op=ctrl_remove_clock", "failed remove_clock changed the estimator");
-                        }
-                        run.hit("remove_clock-err");
+                        Err(e) => err_name(&e),
                     }
                 }
-            }
-            _ => {
-                // queries: public controller API vs the filter's own entries
-                let k = rng.usize(0, w.clocks.len() - 1);
-                let id = w.clocks[k].0;
-                let want = w.ctrl.state.with_ref(|s| s.filter.clock_frequency(id));
-                let got = w.ctrl.clock_frequency(id);
-                let off = w.ctrl.clock_offset(id);
-                if uvs(&got) != uvs(&want) {
-                    run.oracle_fail(
-                        "frequency_query",
-                        "",
-                        &format!("clock_frequency returned {} but the estimated frequency is {} (offset is {})", uvs(&got), uvs(&want), uvs(&off)),
-                    );
+                _ => "bad-op".into(),
+            },
+            "addext" => match w.ctrl.add_external_clock() {
+                Ok(id) => {
+                    w.ids.push((id, None));
+                    run.hit("add_ext-ok");
+                    format!("ok:{}", w.ids.len() - 1)
                 }
-                run.hit("query");
-                run.op(&format!("query fr={}", uvs(&want)), &format!("freq {}", uvs(&got)));
+                Err(e) => err_name(&e),
+            },
+            "rmext" | "rmclock" => match pu(&ws, "c") {
+                Some(c) => {
+                    // an id that was never allocated: use a fresh one that the controller has never seen
+                    let id = w.ids.get(c).map(|x| x.0);
+                    match id {
+                        None => "bad-clock".into(),
+                        Some(id) => {
+                            let r = if ws[0] == "rmext" { w.ctrl.remove_external_clock(id) } else { w.ctrl.remove_clock(id) };
+                            match r {
+                                Ok(()) => {
+                                    let after = w.est_table();
+                                    let expect: Vec<(usize, String)> = before.iter().filter(|(s, _)| *s != c).cloned().collect();
+                                    if expect != after {
+                                        run.oracle_fail("others_unchanged", &format!("op=ctrl_{}", ws[0]), &format!("{} changed other estimates: {:?} -> {:?}", ws[0], before, after));
+                                    }
+                                    run.hit(&format!("{}-ok", ws[0]));
+                                    "ok".into()
+                                }
+                                Err(e) => {
+                                    if before != w.est_table() {
+                                        run.oracle_fail("failed_ops_no_change", &format!("op=ctrl_{}", ws[0]), "failed removal changed the estimator");
+                                    }
+                                    run.hit(&format!("{}-{}", ws[0], err_name(&e)));
+                                    err_name(&e)
+                                }
+                            }
+                        }
+                    }
+                }
+                None => "bad-op".into(),
+            },
+            "link" => match (pu(&ws, "a"), pu(&ws, "b"), kv(&ws, "dec")) {
+                (Some(a), Some(b), Some(dec)) => match (w.ids.get(a).map(|x| x.0), w.ids.get(b).map(|x| x.0)) {
+                    (Some(ia), Some(ib)) => {
+                        let tracked = dec != "-";
+                        let r = if tracked {
+                            match f64unhex(dec) {
+                                Some(d) => Ctrl::create_tracked_link(w.ctrl.clone(), ia, ib, d),
+                                None => {
+                                    run.end_op("bad-op");
+                                    continue;
+                                }
+                            }
+                        } else {
+                            Ctrl::create_untracked_link(w.ctrl.clone(), ia, ib)
+                        };
+                        match r {
+                            Ok(l) => {
+                                let uid = w.n_links;
+                                w.n_links += 1;
+                                let external = w.ids[a].1.is_none() || w.ids[b].1.is_none();
+                                let act = l.active().unwrap_or(false);
+                                // decision-logic oracle: an untracked internal link is active from creation
+                                if !tracked && !external && !act {
+                                    run.oracle_fail("internal_untracked_active", "at=create", "untracked internal link not active after creation");
+                                }
+                                if (tracked || external) && act {
+                                    run.oracle_fail("unusable_never_activates", "at=create", "tracked or external link active at creation");
+                                }
+                                w.links.push(Handle { uid, link: l, a, b, tracked, external, usable: false });
+                                run.hit(if tracked { "link-tracked" } else { "link-untracked" });
+                                format!("ok:{}", uid)
+                            }
+                            Err(e) => {
+                                run.hit(&format!("link-{}", err_name(&e)));
+                                err_name(&e)
+                            }
+                        }
+                    }
+                    _ => "bad-clock".into(),
+                },
+                _ => "bad-op".into(),
+            },
+            "drop" => match pu(&ws, "l").and_then(|u| w.links.iter().position(|h| h.uid == u)) {
+                Some(i) => {
+                    let h = w.links.remove(i);
+                    drop(h);
+                    run.hit("drop");
+                    "ok".into()
+                }
+                None => "nohandle".into(),
+            },
+            "extupd" => match (pu(&ws, "l"), pf(&ws, "rd"), kv(&ws, "leap"), pu(&ws, "usable")) {
+                (Some(u), Some(rd), Some(leap), Some(usable)) => match w.links.iter().position(|h| h.uid == u) {
+                    Some(i) => {
+                        let leap = match leap {
+                            "-" => None,
+                            "0" => Some(LeapStatus::None),
+                            "59" => Some(LeapStatus::Leap59),
+                            "61" => Some(LeapStatus::Leap61),
+                            _ => {
+                                run.end_op("bad-op");
+                                continue;
+                            }
+                        };
+                        match w.links[i].link.external_data_update(Duration::from_f64_seconds(rd), leap, usable == 1) {
+                            Ok(()) => {
+                                w.links[i].usable = usable == 1;
+                                run.hit("extupd-ok");
+                                "ok".into()
+                            }
+                            Err(e) => err_name(&e),
+                        }
+                    }
+                    None => "nohandle".into(),
+                },
+                _ => "bad-op".into(),
+            },
+            "meas" => match (pu(&ws, "l"), pu(&ws, "fwd"), pf(&ws, "d"), pf(&ws, "u")) {
+                (Some(u), Some(fwd), Some(d), Some(unc)) => match w.links.iter().position(|h| h.uid == u) {
+                    Some(li) => {
+                        let send = w.sys_now();
+                        let recv = send + Duration::from_f64_seconds(d);
+                        let uncd = Duration::from_f64_seconds(unc);
+                        let m = Measurement { send_timestamp: send, recv_timestamp: recv, uncertainty: uncd };
+                        let dir = if fwd == 1 { Direction::Forward } else { Direction::Reverse };
+                        let link_id = w.links[li].link.link_id;
+                        // for the oracle: what steer_clocks will read, by the REAL filter code on a clone
+                        let pre = w.ctrl.state.with_ref(|s| {
+                            s.filter.clone().progress_time(send).and_then(|f| {
+                                f.measurement(
+                                    &s.filter_config,
+                                    DirectedLinkId::new(link_id, dir),
+                                    UncertainValue { value: (recv - send).as_seconds(), uncertainty: uncd.as_seconds() },
+                                )
+                            })
+                        });
+                        let rows_before = w.clock_rows();
+                        let r = w.links[li].link.measurement(m, dir);
+                        match r {
+                            Ok(()) => {
+                                run.hit("meas-ok");
+                                let rd = w.ctrl.state.with_ref(|s| dur_raw(s.root_delay));
+                                let rows_after = w.clock_rows();
+                                let mut entries = vec![];
+                                for (k, (seq, _, _, _, _)) in rows_after.iter().enumerate() {
+                                    let mock = w.ids[*seq].1.as_ref().unwrap();
+                                    let lg = mock.0.lock().unwrap();
+                                    let Some(act) = lg.log.act.clone() else { continue };
+                                    if lg.log.extra_acts > 0 {
+                                        run.oracle_fail("steer_once", "", "a clock was steered more than once in one call");
+                                    }
+                                    let (cur, max) = (rows_before[k].3, rows_before[k].4);
+                                    let id = w.ids[*seq].0;
+                                    let a = match &act {
+                                        Act::SetFreq(f) => {
+                                            run.hit(if f.abs() == max { "steer-freq-clamped" } else { "steer-freq" });
+                                            key.push('f');
+                                            if !(f.abs() <= max) && !f.is_nan() {
+                                                run.oracle_fail("steer_within_max", "", &format!("set_frequency({}) with max_frequency {}", f, max));
+                                            }
+                                            if let Ok(pre) = &pre {
+                                                let fr = pre.clock_frequency(id).unwrap();
+                                                let post_f = rows_after[k].2.as_ref().unwrap();
+                                                let applied = f - cur;
+                                                if !rel_close(post_f.value - fr.value, applied) && !rel_close(post_f.value, fr.value + applied) {
+                                                    run.oracle_fail("estimate_tracks_steer", "kind=freq", &format!("frequency estimate {} -> {} but applied change {}", fr.value, post_f.value, applied));
+                                                }
+                                            }
+                                            format!("setfreq {}", f64hex(*f))
+                                        }
+                                        Act::Step(dd) => {
+                                            run.hit("steer-step");
+                                            key.push('s');
+                                            if let Ok(pre) = &pre {
+                                                let o = pre.clock_offset(id).unwrap();
+                                                let post_o = rows_after[k].1.as_ref().unwrap();
+                                                let applied = dd.as_seconds();
+                                                if !rel_close(post_o.value, o.value + applied) && !((post_o.value - (o.value + applied)).abs() <= 1e-18) {
+                                                    run.oracle_fail(
+                                                        "estimate_tracks_steer",
+                                                        &format!("kind=step sys={} sat={}", if k == 0 { 1 } else { 0 }, if o.value.abs() >= 9223372036854775808.0 { 1 } else { 0 }),
+                                                        &format!("offset estimate {} -> {} but applied step {}", o.value, post_o.value, applied),
+                                                    );
+                                                }
+                                            }
+                                            format!("step {}", dur_raw(*dd))
+                                        }
+                                    };
+                                    steers += 1;
+                                    let (ee, _m) = lg.log.ee.unwrap_or((Duration::ZERO, Duration::ZERO));
+                                    entries.push(format!(
+                                        "k={} {} leap={} sync={} ee={} rd={}",
+                                        k,
+                                        a,
+                                        leap_str(lg.log.leap),
+                                        match lg.log.sync {
+                                            Some(true) => "1",
+                                            Some(false) => "0",
+                                            None => "?",
+                                        },
+                                        dur_raw(ee),
+                                        lg.log.ee.map(|x| dur_raw(x.1)).unwrap_or(rd)
+                                    ));
+                                }
+                                log_str = entries.join(" / ");
+                                "ok".into()
+                            }
+                            Err(e) => {
+                                run.hit(&format!("meas-{}", err_name(&e)));
+                                err_name(&e)
+                            }
+                        }
+                    }
+                    None => "nohandle".into(),
+                },
+                _ => "bad-op".into(),
+            },
+            _ => "bad-op".into(),
+        };
+        if res == "bad-op" || res == "nohandle" || res == "bad-clock" {
+            // the model answers the same word for lines it cannot interpret
+            run.end_op(if res == "bad-clock" { "bad-op" } else { &res });
+            continue;
+        }
+        // decision-logic oracles on the implementation alone
+        for h in &w.links {
+            let act = h.link.active().unwrap_or(false);
+            if !h.tracked && !h.external && !act {
+                run.oracle_fail("internal_untracked_active", "at=op", &format!("untracked internal link {} inactive after `{}`", h.uid, op));
+            }
+            let was = active_before.iter().find(|x| x.0 == h.uid).map(|x| x.1);
+            if h.external && !h.usable && was == Some(false) && act {
+                run.oracle_fail("unusable_never_activates", "at=op", &format!("external link {} not marked usable became active after `{}`", h.uid, op));
+            }
+            if was == Some(false) && act {
+                run.hit(if h.external { "became-active-external" } else { "became-active-internal" });
+            }
+            if was == Some(true) && !act {
+                run.hit("became-inactive");
+            }
+            if act {
+                run.hit(if h.external { "active-external" } else if h.tracked { "active-tracked-internal" } else { "active-untracked-internal" });
             }
         }
+        // queries: public controller API vs the filter's own entries
+        for (seq, _, want, _, _) in w.clock_rows() {
+            let got = w.ctrl.clock_frequency(w.ids[seq].0);
+            if uvs(&got) != uvs(&want) {
+                run.oracle_fail("frequency_query", "", &format!("clock_frequency returned {} but the estimated frequency is {}", uvs(&got), uvs(&want)));
+            }
+        }
+        if w.clock_rows().iter().any(|(_, o, f, _, _)| {
+            o.as_ref().map(|v| v.value.is_nan()).unwrap_or(false) || f.as_ref().map(|v| v.value.is_nan()).unwrap_or(false)
+        }) {
+            nan_dead = true;
+            run.hit("nan-estimate");
+        }
+        if std::env::var("VERIF_DEBUG").is_ok() {
+            w.ctrl.state.with_ref(|st| std::eprintln!("DEBUG after `{}`: {:?}", op, st.filter));
+        }
+        run.end_op(&format!("{} [{}] {}", res, log_str, w.table()));
     }
     if steers > 0 {
         run.nontrivial(&key);
     }
 }
 
+/// generator-side bookkeeping (approximate: it only has to make most op lines meaningful)
+struct Gen {
+    kinds: Vec<Option<bool>>, // per allocated clock: Some(true)=internal, Some(false)=external, None=removed
+    links: Vec<(usize, usize, bool, bool, bool)>, // (a, b, tracked, external, alive) by uid
+    bias: Vec<f64>, // persistent extra offset of a link (a falseticker once non-zero)
+}
+
+fn gen_case(rng: &mut Rng, idx: u64, _run: &Run) -> Vec<String> {
+    let mut ops = vec![];
+    let f = |x: f64| f64hex(x);
+    let t0 = (rng.below(2_000_000_000), rng.below(1_000_000_000));
+    let max0 = match rng.below(6) {
+        0 => 1e-6,
+        1 => 0.0,
+        _ => rng.f64_unit() * 1e-3 + 1e-6,
+    };
+    let ma = match rng.below(5) {
+        0 => 2,
+        1 => 3,
+        _ => 1,
+    };
+    let mw = if rng.chance(1, 5) { 1e-4 } else { 1.0 };
+    ops.push(format!("new t={}:{} max={} w={} ow={} lw={} dw={} mw={} ma={}", t0.0, t0.1, f(max0), f(1e-8), f(3.0), f(3.0), f(1.0), f(mw), ma));
+    let mut g = Gen { kinds: vec![Some(true)], links: vec![], bias: vec![] };
+    let mut push_link = |g: &mut Gen, ops: &mut Vec<String>, rng: &mut Rng, a: usize, b: usize, tracked: bool| {
+        let dec = if tracked { f64hex(0.01 * (1.0 + rng.f64_unit())) } else { "-".to_string() };
+        ops.push(format!("link a={} b={} dec={}", a, b, dec));
+        let (ka, kb) = (g.kinds.get(a).copied().flatten(), g.kinds.get(b).copied().flatten());
+        if let (Some(ia), Some(ib)) = (ka, kb) {
+            if a != b && (ia || ib) {
+                g.links.push((a, b, tracked, !(ia && ib), true));
+                g.bias.push(0.0);
+                return Some(g.links.len() - 1);
+            }
+        }
+        None
+    };
+    // corpus case 0: the design-time witness of F-C43 (one extra clock, a link, one measurement)
+    if idx == 0 {
+        ops.push(format!("addclock max={} cur={} w={}", f(1e-4), f(0.0), f(1e-8)));
+        ops.push("link a=0 b=1 dec=-".to_string());
+        ops.push(format!("meas l=0 fwd=1 d={} u={}", f(1e-3), f(1e-6)));
+        ops.push(format!("tick dt={}", f(1.0)));
+        ops.push(format!("meas l=0 fwd=0 d={} u={}", f(-1e-3), f(1e-6)));
+        return ops;
+    }
+    // set-up phase: some external references with usable links to the system clock
+    let n_ext = match rng.below(8) {
+        0 => 0,
+        1..=3 => 1,
+        4..=5 => 2,
+        _ => 3,
+    };
+    // sometimes a second internal clock that also gets external references (steps of a non-system clock
+    // must shift the recorded external offsets)
+    let second = rng.chance(1, 3);
+    if second {
+        ops.push(format!("addclock max={} cur={} w={}", f(1e-4), f(0.0), f(1e-8)));
+        g.kinds.push(Some(true));
+        push_link(&mut g, &mut ops, rng, 0, 1, false);
+    }
+    for _ in 0..n_ext {
+        ops.push("addext".to_string());
+        g.kinds.push(Some(false));
+        let e = g.kinds.len() - 1;
+        let tracked = rng.chance(1, 3);
+        let host = if second && rng.chance(1, 2) { 1 } else { 0 };
+        let (a, b) = if rng.chance(1, 2) { (e, host) } else { (host, e) };
+        if let Some(uid) = push_link(&mut g, &mut ops, rng, a, b, tracked) {
+            if rng.chance(7, 8) {
+                let leap = *rng.pick(&["-", "0", "0", "59", "61"]);
+                let rd = if rng.chance(1, 3) { 0.0 } else { rng.f64_unit() * 1e-3 };
+                ops.push(format!("extupd l={} rd={} leap={} usable=1", uid, f(rd), leap));
+            }
+        }
+    }
+    let true_off: f64 = match rng.below(4) {
+        0 => (rng.f64_unit() * 2.0 - 1.0) * 20.0,
+        1 => 1e-3,
+        _ => (rng.f64_unit() * 2.0 - 1.0) * 1e-2,
+    };
+    let n_ops = rng.usize(4, 45);
+    for _ in 0..n_ops {
+        match rng.below(100) {
+            0..=9 => {
+                let max = match rng.below(8) {
+                    0 => 0.0,
+                    1 => 1e-9,
+                    _ => rng.f64_unit() * 1e-3 + 1e-7,
+                };
+                let cur = if rng.chance(1, 3) { (rng.f64_unit() * 2.0 - 1.0) * max } else { 0.0 };
+                ops.push(format!("addclock max={} cur={} w={}", f(max), f(cur), f(1e-8 * (1.0 + rng.f64_unit()))));
+                g.kinds.push(Some(true));
+            }
+            10..=12 => {
+                ops.push("addext".to_string());
+                g.kinds.push(Some(false));
+            }
+            13..=24 => {
+                let n = g.kinds.len();
+                let a = rng.usize(0, n - 1);
+                let b = if rng.chance(1, 12) { a } else { rng.usize(0, n - 1) };
+                let tracked = rng.chance(2, 5);
+                push_link(&mut g, &mut ops, rng, a, b, tracked);
+            }
+            25..=30 => {
+                if !g.links.is_empty() {
+                    let uid = rng.usize(0, g.links.len() - 1);
+                    let leap = *rng.pick(&["-", "0", "0", "59", "61"]);
+                    let usable = if rng.chance(3, 4) { 1 } else { 0 };
+                    let rd = if rng.chance(1, 6) { 2.0 } else { rng.f64_unit() * 1e-3 };
+                    ops.push(format!("extupd l={} rd={} leap={} usable={}", uid, f(rd), leap, usable));
+                }
+            }
+            31..=33 => {
+                if !g.links.is_empty() {
+                    let uid = rng.usize(0, g.links.len() - 1);
+                    ops.push(format!("drop l={}", uid));
+                    g.links[uid].4 = false;
+                }
+            }
+            34..=37 => {
+                let c = rng.usize(0, g.kinds.len() - 1);
+                ops.push(format!("{} c={}", if rng.chance(1, 2) { "rmclock" } else { "rmext" }, c));
+                // (whether it succeeds depends on links in use; the generator does not track that)
+            }
+            38..=49 => {
+                let dt = match rng.below(5) {
+                    0 => 0.0,
+                    1 => 0.1,
+                    2 => 0.6,
+                    _ => rng.f64_unit() * 4.0,
+                };
+                ops.push(format!("tick dt={}", f(dt)));
+            }
+            _ => {
+                let alive: Vec<usize> = (0..g.links.len()).filter(|i| g.links[*i].4).collect();
+                if alive.is_empty() {
+                    continue;
+                }
+                let uid = *rng.pick(&alive);
+                let (_, _, tracked, external, _) = g.links[uid];
+                let base = if external { true_off } else { (rng.f64_unit() * 2.0 - 1.0) * 1e-2 };
+                let delay = if tracked { 1e-4 } else { 0.0 };
+                let jitter = || 0.0;
+                let _ = jitter;
+                // tracked links need both halves close in time: bursts of forward/reverse pairs
+                let pairs = if tracked { rng.usize(2, 6) } else { 1 };
+                // now and then an external source turns into a falseticker (or back)
+                if external && rng.chance(1, 12) {
+                    g.bias[uid] = if g.bias[uid] == 0.0 { if rng.chance(1, 2) { 0.3 } else { -0.3 } } else { 0.0 };
+                }
+                let base = base + g.bias[uid];
+                for _ in 0..pairs {
+                    let exact = rng.chance(1, 4);
+                    let n1 = if exact { 0.0 } else { (rng.f64_unit() * 2.0 - 1.0) * 1e-6 };
+                    let n2 = if exact { 0.0 } else { (rng.f64_unit() * 2.0 - 1.0) * 1e-6 };
+                    let u = if external && !tracked && rng.chance(1, 8) { 0.0 } else { rng.f64_unit() * 1e-5 + 1e-9 };
+                    let off = if rng.chance(1, 10) { base + (rng.f64_unit() * 2.0 - 1.0) * 0.5 } else { base };
+                    let fwd_first = rng.chance(1, 2);
+                    // sign convention: forward measures (to − from) + delay, reverse −(to − from) + delay
+                    let mf = format!("meas l={} fwd=1 d={} u={}", uid, f(off + delay + n1), f(u));
+                    let mr = format!("meas l={} fwd=0 d={} u={}", uid, f(-off + delay + n2), f(u));
+                    if tracked || rng.chance(1, 2) {
+                        if fwd_first {
+                            ops.push(mf);
+                            ops.push(mr);
+                        } else {
+                            ops.push(mr);
+                            ops.push(mf);
+                        }
+                    } else if fwd_first {
+                        ops.push(mf);
+                    } else {
+                        ops.push(mr);
+                    }
+                }
+            }
+        }
+    }
+    ops
+}
+
 #[test]
 fn entry() {
     let stream = std::env::var("VERIF_STREAM").unwrap_or_default();
     match stream.as_str() {
-        "c43_ctrl" => {
-            let mut run = Run::from_env("c43_ctrl");
-            for idx in 0..run.n {
-                let mut rng = run.rng_for(idx);
-                run.guarded_case(idx, |r| exec_case(&mut rng, idx, r));
-            }
-            run.finish("scenarios (4-40 steps) on a real KalmanController with recording mock clocks: add/remove clocks, untracked links, measurements with time ticks, queries; per steered clock one `steer` line with the estimate steer_clocks read (computed by the real filter on a clone) and the action observed on the mock; non-trivial = at least one clock steered; distinct by action-kind string");
-        }
+        "c43_ctrl" => common::drive(
+            "c43_ctrl",
+            "op sequences (set-up of 0-3 external references with usable links, then 4-45 steps: clocks, external clocks, tracked/untracked links, external data updates, drops, removals, ticks, measurement bursts) on a real KalmanController with recording mock clocks; everything the controller did to the mocks plus the estimate table after every op; non-trivial = at least one clock steered; distinct by action-kind string",
+            gen_case,
+            exec_case,
+        ),
         other => panic!("unknown VERIF_STREAM {:?}", other),
     }
 }
